@@ -109,6 +109,11 @@ impl Report {
     /// Write evidence, print KNOWN-FINDING / VIOLATION lines, return the exit code.
     pub fn finish(self) -> i32 {
         let known = load_known();
+        // constructors of envelope cases that panicked (valid parameters by construction of E): the property cannot
+        // hold for a parameter set whose distribution cannot even be built
+        for (label, msg) in crate::exec::CTOR_PANICS.lock().unwrap().iter() {
+            self.violation(format!("{label}|ctor-panic"), format!("the constructor panicked on a parameter set of the envelope: {msg}"), json!({"case": label, "panic": msg}));
+        }
         let findings = self.findings.into_inner().unwrap();
         let mut unlisted = 0u64;
         let mut known_hit: BTreeMap<usize, u64> = BTreeMap::new();
